@@ -951,6 +951,12 @@ func (r *replayer) reproduceOnce(h *Harness, v *interp.Violation, params map[str
 		if nr.verdict == "assert" && nr.detail == v.Label {
 			return true, "assert " + nr.detail
 		}
+		// a "never crashes" assertion: natively a panic inside a goroutine of the code under
+		// test cannot be caught by the harness and kills the test process
+		if nr.verdict == "crash" && (strings.Contains(v.Label, "no-panic") || strings.Contains(v.Label, "no-crash")) {
+			v.Detail = v.Detail + " | native process crashed: " + firstLine(nr.detail)
+			return true, "crash"
+		}
 	case "panic":
 		if nr.verdict == "panic" || nr.verdict == "crash" {
 			v.Detail = v.Detail + " | native: " + firstLine(nr.detail)
